@@ -163,10 +163,12 @@ def generator_checks(P, env, rng, tier):
     n = P.params["n"]
     if not hasattr(gen, "generate_actions_for_scramble"):
         return out
+    draw = jax.jit(gen.generate_actions_for_scramble)
+    make = jax.jit(gen.generate_cube)
     for i in range(6 if tier == "quick" else 40):
         key = jax.random.PRNGKey(int(rng.integers(0, 2 ** 31 - 1)))
-        acts = np.asarray(gen.generate_actions_for_scramble(key))
-        cube = np.asarray(gen.generate_cube(key))
+        acts = np.asarray(draw(key))
+        cube = np.asarray(make(key))
         ref = np.repeat(np.arange(6), n * n).reshape(6, n, n)
         if acts.size and (acts.min() < 0 or acts.max() >= 6 * (n // 2) * 3):
             out.append(f"scramble_actions_in_range: flat scramble actions in [{int(acts.min())}, {int(acts.max())}], {6 * (n // 2) * 3} moves exist")
